@@ -13,6 +13,7 @@ package main
 
 import (
 	"crypto/sha256"
+	"crypto/sha512"
 	"encoding/base64"
 	"encoding/hex"
 	"encoding/json"
@@ -67,6 +68,11 @@ type Scn struct {
 	Reps       int               `json:"reps,omitempty"`    // c10: repetitions of every verification
 	CertStep   int               `json:"cert_step,omitempty"` // c10: index+1 of the step that also authorises a certificate functionary
 	Permissive bool              `json:"permissive,omitempty"` // all artifact rules are ALLOW *: only the agreement of counted links can reject
+	HashAlg    string            `json:"hash_alg,omitempty"`   // digest algorithm recorded in the step links (default sha256; inspections always record sha256)
+	InspPermissive bool          `json:"insp_permissive,omitempty"` // inspection rules are ALLOW *
+	ExtraFinal map[string]string `json:"extra_final,omitempty"` // further files lying in the verification directory that no step reported
+	CertUnsorted bool            `json:"cert_unsorted,omitempty"` // c10: the certificate constraint lists several values in non-sorted order
+	ExpectSummary string         `json:"expect_summary,omitempty"` // filled by materialise: the summary link an accepted verification must return
 	Seed       uint64            `json:"seed"`
 }
 
@@ -75,7 +81,16 @@ var pool = lib.DefaultPool
 func pk(name string) lib.KeyPair { return lib.GetKeyPair(name) }
 
 func sha(s string) string { h := sha256.Sum256([]byte(s)); return hex.EncodeToString(h[:]) }
-func hobj(content string) intoto.HashObj { return intoto.HashObj{"sha256": sha(content)} }
+
+var curAlg = "sha256" // digest algorithm of the links being written (set by materialise from Scn.HashAlg)
+
+func hobj(content string) intoto.HashObj {
+	if curAlg == "sha512" {
+		h := sha512.Sum512([]byte(content))
+		return intoto.HashObj{"sha512": hex.EncodeToString(h[:])}
+	}
+	return intoto.HashObj{"sha256": sha(content)}
+}
 
 func arts(files map[string]string) map[string]intoto.HashObj {
 	m := map[string]intoto.HashObj{}
@@ -158,6 +173,11 @@ func buildLayout(sc *Scn, runDirPrefix string) intoto.Layout {
 		if sc.CertStep == i+1 && certCtx != nil {
 			s.CertificateConstraints = []intoto.CertificateConstraint{{CommonName: "alice", Roots: []string{"*"},
 				DNSNames: []string{}, Emails: []string{}, Organizations: []string{}, URIs: []string{}}}
+			if sc.CertUnsorted {
+				// several values per attribute, deliberately not in sorted order (in the constraint and in the certificate)
+				s.CertificateConstraints[0].Organizations = []string{"zeta-org", "alpha-org", "mid-org"}
+				s.CertificateConstraints[0].DNSNames = []string{"z.example.org", "a.example.org"}
+			}
 			l.RootCas = map[string]intoto.Key{certCtx.root.Key.KeyID: certCtx.root.Key}
 		}
 		l.Steps = append(l.Steps, s)
@@ -182,6 +202,19 @@ func buildLayout(sc *Scn, runDirPrefix string) intoto.Layout {
 			x.ExpectedMaterials = [][]string{m, {"REQUIRE", pre + "README"}, {"ALLOW", pre + "*.link"}, {"DISALLOW", "*"}}
 		}
 		x.ExpectedProducts = [][]string{m, {"ALLOW", pre + "*.link"}, {"ALLOW", pre + "*.tmp"}, {"DISALLOW", "*"}}
+		if sc.Defect == "escaped-pattern-product-modified" || sc.Defect == "escaped-pattern-none" {
+			// the rule patterns name one file literally, with a backslash escape: `stamp\.txt` means exactly stamp.txt
+			esc := []string{"MATCH", `stamp\.txt`, "WITH", "PRODUCTS", "FROM", last}
+			if runDirPrefix != "" {
+				esc = []string{"MATCH", `stamp\.txt`, "IN", runDirPrefix, "WITH", "PRODUCTS", "FROM", last}
+			}
+			x.ExpectedMaterials = [][]string{esc, {"DISALLOW", pre + `stamp\.txt`}, {"ALLOW", "*"}}
+			x.ExpectedProducts = [][]string{esc, {"DISALLOW", pre + `stamp\.txt`}, {"ALLOW", "*"}}
+		}
+		if sc.InspPermissive {
+			x.ExpectedMaterials = [][]string{{"ALLOW", "*"}}
+			x.ExpectedProducts = [][]string{{"ALLOW", "*"}}
+		}
 		l.Inspect = append(l.Inspect, x)
 	}
 	return l
@@ -470,11 +503,12 @@ var defects = map[string][]string{
 	"c05": {"none", "disagree-product-digest", "disagree-product-path", "disagree-material-digest", "disagree-algorithm", "disagree-algorithm-material",
 		"junk-uncounted-badsig", "junk-uncounted-unauthorised", "extra-agreeing-link", "byproducts-differ",
 		"threshold1-disagree-product-digest", "threshold1-disagree-algorithm", "threshold1-agree",
-		"permissive-disagree-algorithm", "permissive-disagree-algorithm-material", "permissive-disagree-product-digest", "permissive-none"},
+		"permissive-disagree-algorithm", "permissive-disagree-algorithm-material", "permissive-disagree-product-digest", "permissive-none",
+		"insp-named-like-last-step", "insp-named-like-first-step", "permissive-unclean-paths"},
 	"c06": {"none", "expired-long", "expired-2s", "future-1h", "garbage", "empty", "rfc3339-offset", "date-only", "year-9999", "fraction", "lowercase"},
-	"c08": {"sub-defective-beside-good-link", "sub-ok", "sub-ok", "sub-badsig", "sub-expired", "sub-missing-link", "sub-rule-violation", "sub-unauthorised", "sub-nested", "sub-nested-defect", "sub-summary-mismatch"},
-	"c10": {"history-same-params", "history-diff-params", "history-no-params", "history-mixed", "mixed-cert-key", "mixed-cert-key", "summary-byproducts", "direct-unclean"},
-	"c09": {"insp-rewrite-same-mtime", "product-all-removed", "require-after-consume", "none", "insp-fail", "insp-fail-255", "insp-missing", "insp-empty", "product-modified", "product-added", "product-removed",
+	"c08": {"sub-insp-named-like-first-step", "sub-insp-named-like-last-step", "sub-defective-beside-good-link", "sub-ok", "sub-ok", "sub-badsig", "sub-expired", "sub-missing-link", "sub-rule-violation", "sub-unauthorised", "sub-nested", "sub-nested-defect", "sub-summary-mismatch"},
+	"c10": {"history-same-params", "history-diff-params", "history-no-params", "history-mixed", "mixed-cert-key", "mixed-cert-key", "mixed-cert-key-unsorted", "summary-byproducts", "direct-unclean"},
+	"c09": {"sha512-chain-product-modified", "escaped-pattern-product-modified", "escaped-pattern-none", "insp-rewrite-same-mtime", "product-all-removed", "require-after-consume", "none", "insp-fail", "insp-fail-255", "insp-missing", "insp-empty", "product-modified", "product-added", "product-removed",
 		"insp-touch-allowed", "insp-touch-disallowed", "three-inspections", "second-fails"},
 }
 
@@ -563,6 +597,19 @@ func genScenario(r *lib.Rng, focus string) *Scn {
 			sc.Insps = nil
 			sc.ExpectLog = nil
 		}
+		if strings.HasPrefix(d, "insp-named-like-") {
+			// an inspection bearing the name of the first / last step (validateLayout would refuse it, but verification
+			// does not call it): the summary must still carry the artifacts of the counted STEP links. The verification
+			// directory legitimately holds one more file (the inspection rules allow everything).
+			name := sc.Steps[len(sc.Steps)-1].Name
+			if d == "insp-named-like-first-step" {
+				name = sc.Steps[0].Name
+			}
+			sc.InspPermissive = true
+			sc.Insps = []InspSpec{{Name: "insp0", Kind: "log"}, {Name: name, Kind: "log"}}
+			sc.ExpectLog = []string{"insp0", name}
+			sc.ExtraFinal = map[string]string{"NOTES.txt": "not reported by any step\n"}
+		}
 		if strings.HasPrefix(d, "threshold1-") {
 			// more counted links than the threshold requires: they must still all agree
 			sc.Steps[i].Threshold = 1
@@ -581,7 +628,8 @@ func genScenario(r *lib.Rng, focus string) *Scn {
 			}
 		}
 		switch d {
-		case "none", "junk-uncounted-badsig", "junk-uncounted-unauthorised", "extra-agreeing-link", "byproducts-differ", "threshold1-agree", "permissive-none":
+		case "none", "junk-uncounted-badsig", "junk-uncounted-unauthorised", "extra-agreeing-link", "byproducts-differ", "threshold1-agree", "permissive-none",
+			"insp-named-like-last-step", "insp-named-like-first-step", "permissive-unclean-paths":
 		default:
 			sc.Expect = "reject"
 		}
@@ -636,6 +684,17 @@ func genScenario(r *lib.Rng, focus string) *Scn {
 		sc.ExpectLog = append([]string{"subinsp"}, sc.ExpectLog...)
 		switch d {
 		case "sub-ok":
+		case "sub-insp-named-like-first-step", "sub-insp-named-like-last-step":
+			// the sublayout has an inspection named like one of its own steps: the parent must still see the
+			// first-step materials / last-step products of the sublayout's counted links
+			name := sub.Steps[0].Name
+			if d == "sub-insp-named-like-last-step" {
+				name = sub.Steps[len(sub.Steps)-1].Name
+			}
+			sub.Insps = []InspSpec{{Name: name, Kind: "log"}}
+			sc.ExpectLog = append([]string{name}, sc.ExpectLog[1:]...)
+			sc.ExtraFinal = map[string]string{"NOTES.txt": "not reported by any step\n"}
+			sc.InspPermissive = true
 		case "sub-defective-beside-good-link":
 			// two authorised functionaries, threshold 1: one hands in a good link, the other an EXPIRED sublayout.
 			// Any failure inside a sublayout fails the whole verification.
@@ -715,7 +774,8 @@ func genScenario(r *lib.Rng, focus string) *Scn {
 		case "history-mixed":
 			sc.Params = good
 			sc.History = []map[string]string{bad, good, {"OUT": "out", "SRC": "src", "bad name": "x"}, good}
-		case "mixed-cert-key":
+		case "mixed-cert-key", "mixed-cert-key-unsorted":
+			sc.CertUnsorted = d == "mixed-cert-key-unsorted"
 			// one step authorises a key AND a certificate constraint, threshold 2, one link each
 			i := r.Intn(len(sc.Steps))
 			st := &sc.Steps[i]
@@ -762,6 +822,17 @@ func genScenario(r *lib.Rng, focus string) *Scn {
 			sc.Insps = []InspSpec{{Name: "insp0", Kind: "log"}}
 			sc.Entry = "plain"
 			sc.Expect = "reject"
+		case "sha512-chain-product-modified":
+			// every step link records sha512 digests only (inspections always record sha256): a final product that was
+			// modified cannot be confirmed against what the last step recorded and must not pass
+			sc.HashAlg = "sha512"
+			sc.Insps = []InspSpec{{Name: "insp0", Kind: "log"}}
+			sc.Expect = "reject"
+		case "escaped-pattern-product-modified":
+			sc.Insps = []InspSpec{{Name: "insp0", Kind: "log"}}
+			sc.Expect = "reject"
+		case "escaped-pattern-none":
+			sc.Insps = []InspSpec{{Name: "insp0", Kind: "log"}}
 		case "require-after-consume":
 			sc.Insps = []InspSpec{{Name: "insp0", Kind: "log"}}
 			sc.Expect = "reject"
@@ -807,6 +878,8 @@ type world struct {
 	verifierKeys                        map[string]intoto.Key
 	final                               map[string]string
 	runDirArg                           string
+	expMat, expProd                     map[string]intoto.HashObj // generator ground truth: first-step materials, last-step products
+	extraKeys                           []lib.KeyPair             // key objects in use whose id is not derived from their material
 }
 
 func materialise(sc *Scn, root string, r *lib.Rng) *world {
@@ -822,12 +895,22 @@ func materialise(sc *Scn, root string, r *lib.Rng) *world {
 	if sc.CertStep > 0 {
 		sc.Wrapper = "legacy" // DSSE envelopes carry no certificate
 		root := lib.NewCA("verif-root", nil, lib.CertOpts{})
-		certCtx = &certInfo{root: root, leaf: root.NewLeaf(lib.CertOpts{CN: "alice"})}
+		opts := lib.CertOpts{CN: "alice"}
+		if sc.CertUnsorted {
+			opts.Orgs = []string{"mid-org", "zeta-org", "alpha-org"}
+			opts.DNS = []string{"z.example.org", "a.example.org"}
+		}
+		certCtx = &certInfo{root: root, leaf: root.NewLeaf(opts)}
 	}
 	l := buildLayout(sc, w.runDirArg)
 	// links
+	curAlg = "sha256"
+	if sc.HashAlg != "" {
+		curAlg = sc.HashAlg
+	}
 	b := writeChain(sc, w.linkDir, initialFiles(), r)
 	w.final = b.last
+	w.expMat, w.expProd = arts(b.first), arts(b.last)
 	// step-level defects on link files
 	applyLinkDefects(sc, w, r)
 	// layout signing and layout-level defects
@@ -863,7 +946,14 @@ func materialise(sc *Scn, root string, r *lib.Rng) *world {
 		delete(final, "README")
 	case "product-all-removed":
 		final = map[string]string{}
+	case "sha512-chain-product-modified", "escaped-pattern-product-modified":
+		final["stamp.txt"] = "EVIL"
 	}
+	for p, c := range sc.ExtraFinal {
+		final[p] = c
+	}
+	curAlg = "sha256"
+	sc.ExpectSummary = lib.ShowLinkCore(intoto.Link{Name: "summary-name", Materials: w.expMat, Products: w.expProd})
 	for p, c := range final {
 		fp := filepath.Join(w.prodDir, p)
 		os.MkdirAll(filepath.Dir(fp), 0o755)
@@ -927,6 +1017,41 @@ func applyLinkDefects(sc *Scn, w *world, r *lib.Rng) {
 			k := anyKey(l.Products)
 			l.Products[k] = intoto.HashObj{"sha256": l.Products[k]["sha256"], "sha512": "00"}
 		})
+	case "unclean-paths":
+		// every counted link of the first step reports further materials, and every counted link of the last step
+		// further products, under names that are not in path.Clean form (one of them collides with a clean name):
+		// the links agree, nothing forbids the names, and the summary must carry exactly what was reported
+		edit := func(stIdx int, f func(l *intoto.Link)) {
+			for _, who := range sc.Steps[stIdx].Signers {
+				kp := pk(who)
+				fp := filepath.Join(w.linkDir, linkFile(sc.Steps[stIdx].Name, kp.Pub.KeyID))
+				m, err := intoto.LoadMetadata(fp)
+				must(err)
+				l := m.GetPayload().(intoto.Link)
+				f(&l)
+				m2 := wrap(sc, l)
+				mustSign(m2, kp.Priv)
+				must(m2.Dump(fp))
+			}
+		}
+		extraM := map[string]intoto.HashObj{"./src/a.c": hobj("another a.c"), "d//x": hobj("dx"), "e/./y": hobj("ey")}
+		extraP := map[string]intoto.HashObj{"dist//app.tar.gz": hobj("tar"), "./README": hobj("another readme"), "z/../w": hobj("w")}
+		edit(0, func(l *intoto.Link) {
+			for k, v := range extraM {
+				l.Materials[k] = v
+			}
+		})
+		edit(len(sc.Steps)-1, func(l *intoto.Link) {
+			for k, v := range extraP {
+				l.Products[k] = v
+			}
+		})
+		for k, v := range extraM {
+			w.expMat[k] = v
+		}
+		for k, v := range extraP {
+			w.expProd[k] = v
+		}
 	case "byproducts-differ", "summary-byproducts":
 		resign(func(l *intoto.Link) { l.ByProducts["stdout"] = "completely different output"; l.Command = []string{"other"} })
 	case "junk-uncounted-badsig", "junk-uncounted-unauthorised":
@@ -976,6 +1101,30 @@ func applySubDefects(sc *Scn, w *world) {
 		file := filepath.Join(w.linkDir, linkFile(st.Name, kp.Pub.KeyID))
 		subDir := filepath.Join(w.linkDir, fmt.Sprintf(intoto.SublayoutLinkDirFormat, st.Name, kp.Pub.KeyID))
 		switch sc.Defect {
+		case "sub-forged-link-first-use":
+			outsider := pk(sc.DefectArg)
+			for _, sst := range st.Sub.Steps {
+				if len(sst.Keys) != 1 || !strings.HasPrefix(sst.Keys[0], "ed-c08-victim-") {
+					continue
+				}
+				victim := pk(sst.Keys[0])
+				fp := filepath.Join(subDir, linkFile(sst.Name, victim.Pub.KeyID))
+				m, err := intoto.LoadMetadata(fp)
+				must(err)
+				m2 := wrap(st.Sub, m.GetPayload())
+				mustSign(m2, outsider.Priv)
+				must(m2.Dump(fp))
+				editJSON(fp, func(wr, pl map[string]interface{}) {
+					for _, sg := range wr["signatures"].([]interface{}) {
+						sg.(map[string]interface{})["keyid"] = victim.Pub.KeyID
+					}
+				})
+				fake := outsider.Pub
+				fake.KeyID = victim.Pub.KeyID
+				if lm2, err := intoto.LoadMetadata(fp); err == nil {
+					_ = lm2.VerifySignature(fake)
+				}
+			}
 		case "sub-badsig":
 			editJSON(file, func(wr, pl map[string]interface{}) { pl["readme"] = "altered after signing" })
 		case "sub-missing-link":
@@ -1019,7 +1168,7 @@ func applySubDefects(sc *Scn, w *world) {
 }
 
 func applyLayoutDefects(sc *Scn, w *world, r *lib.Rng) {
-	if sc.Focus != "c01" {
+	if sc.Focus != "c01" && sc.Defect != "keyid-collision-history" {
 		return
 	}
 	p := w.layoutPath
@@ -1124,7 +1273,7 @@ func applyLayoutDefects(sc *Scn, w *world, r *lib.Rng) {
 		// a key id is only a label) - this must not influence the later verification under the owner's real key
 		fake := pk(outsider).Pub
 		fake.KeyID = ownerID
-		if lm2, err := intoto.LoadMetadata(p); err == nil {
+		if lm2, err := intoto.LoadMetadata(p); err == nil && !noPrime {
 			_ = lm2.VerifySignature(fake)
 		}
 	case "reorder-signatures":
@@ -1185,7 +1334,10 @@ func readLog() []string {
 	return strings.Fields(string(b))
 }
 
-func runImpl(sc *Scn, w *world) (o obs) {
+func runImpl(sc *Scn, w *world) obs { return runImplOn(sc, w, nil) }
+
+// runImplOn verifies with the given layout object (nil: a freshly loaded one)
+func runImplOn(sc *Scn, w *world, lm intoto.Metadata) (o obs) {
 	os.Remove(logPath)
 	cwd, _ := os.Getwd()
 	defer os.Chdir(cwd)
@@ -1194,9 +1346,12 @@ func runImpl(sc *Scn, w *world) (o obs) {
 			o = obs{Verdict: "PANIC", Err: fmt.Sprint(rec), Log: readLog()}
 		}
 	}()
-	// always reload the layout so that no object is shared between runs
-	lm, err := intoto.LoadMetadata(w.layoutPath)
-	must(err)
+	// unless told otherwise reload the layout so that no object is shared between runs
+	var err error
+	if lm == nil {
+		lm, err = intoto.LoadMetadata(w.layoutPath)
+		must(err)
+	}
 	var sum intoto.Metadata
 	if sc.Entry == "dir" {
 		os.Chdir(w.root) // cwd is NOT the run dir: inspection links are dumped into cwd
@@ -1313,6 +1468,9 @@ func historyOracle(sc *Scn, impl string) string {
 		if i < len(parts) && !strings.HasPrefix(parts[i], want) {
 			return fmt.Sprintf("VIOLATES: verification %d with parameters %s expected %s, got %s", i, a, want, parts[i])
 		}
+		if i < len(parts) && want == "accept" && sc.ExpectSummary != "" && !strings.HasPrefix(parts[i], "accept|"+sc.ExpectSummary+"|") {
+			return fmt.Sprintf("VIOLATES: verification %d returned %s, but the agreed first-step materials / last-step products are %s", i, parts[i], sc.ExpectSummary)
+		}
 	}
 	return impl
 }
@@ -1386,6 +1544,9 @@ func oracleViolations(sc *Scn, o obs) string {
 			return fmt.Sprintf("inspections executed %v, expected exactly %v in this order", o.Log, sc.ExpectLog)
 		}
 	}
+	if o.Verdict == "accept" && sc.Expect == "accept" && sc.ExpectSummary != "" && o.Summary != sc.ExpectSummary {
+		return fmt.Sprintf("summary link is %s, but the agreed first-step materials / last-step products are %s", o.Summary, sc.ExpectSummary)
+	}
 	if sc.Focus == "c01" || sc.Focus == "c06" {
 		if o.Verdict == "reject" && sc.Expect == "reject" && len(o.Log) > 0 {
 			return fmt.Sprintf("layout must be rejected before any inspection runs, but %v ran", o.Log)
@@ -1396,13 +1557,8 @@ func oracleViolations(sc *Scn, o obs) string {
 
 // ---------- rendering for the model ----------
 
-func coqKeyMapOrdered(names []string) string {
+func coqKeyMapOrdered(ks map[string]intoto.Key) string {
 	var it []string
-	ks := map[string]intoto.Key{}
-	for _, n := range names {
-		k := pk(n).Pub
-		ks[k.KeyID] = k
-	}
 	for _, id := range lib.SortedKeys(ks) {
 		it = append(it, lib.CoqPair(lib.CoqStr(id), lib.CoqKey(ks[id])))
 	}
@@ -1469,6 +1625,37 @@ func indepVerify(path string, m intoto.Metadata, kp lib.KeyPair) bool {
 	return false
 }
 
+// every key name the scenario mentions (the pool plus dedicated keys of special scenarios)
+func scenarioKeyNames(sc *Scn) []string {
+	seen := map[string]bool{}
+	out := append([]string{}, pool...)
+	for _, p := range pool {
+		seen[p] = true
+	}
+	var walk func(s *Scn)
+	add := func(xs []string) {
+		for _, x := range xs {
+			if x != "" && !seen[x] {
+				seen[x] = true
+				out = append(out, x)
+			}
+		}
+	}
+	walk = func(s *Scn) {
+		add(s.Owners)
+		add(s.Verifiers)
+		for _, st := range s.Steps {
+			add(st.Keys)
+			add(st.Signers)
+			if st.Sub != nil {
+				walk(st.Sub)
+			}
+		}
+	}
+	walk(sc)
+	return out
+}
+
 func coqHistory(sc *Scn, w *world) string {
 	var parts []string
 	for _, p := range sc.History {
@@ -1490,8 +1677,14 @@ func coqModelAt(sc *Scn, w *world, params map[string]string, nowNs int64) string
 		if m == nil {
 			return
 		}
-		for _, pn := range pool {
+		for _, pn := range scenarioKeyNames(sc) {
 			kp := pk(pn)
+			if indepVerify(path, m, kp) {
+				truths = append(truths, lib.CoqPair(lib.CoqStr(tag), lib.CoqStr(kp.Pub.KeyID)))
+			}
+		}
+		for _, kp := range w.extraKeys {
+			// a key object whose id is only a label: the signature entry carrying that label must verify under its material
 			if indepVerify(path, m, kp) {
 				truths = append(truths, lib.CoqPair(lib.CoqStr(tag), lib.CoqStr(kp.Pub.KeyID)))
 			}
@@ -1553,7 +1746,7 @@ func coqModelAt(sc *Scn, w *world, params map[string]string, nowNs int64) string
 		lib.CoqStr(prefix) + " " + lib.CoqList(files, "str * str") + " " +
 		lib.CoqLinkDir(dir) + " " +
 		lib.CoqEnv(w.layoutMeta, "LAYOUT") + " " +
-		coqKeyMapOrdered(sc.Verifiers) + " " +
+		coqKeyMapOrdered(w.verifierKeys) + " " +
 		lib.CoqStr("summary-name") + " " +
 		lib.CoqStrMap(lib.SortedKeys(params), params) + ")"
 }
@@ -1571,33 +1764,23 @@ func main() {
 		wr, err := lib.NewWriter(os.Args[3])
 		must(err)
 		r := lib.NewRng(lib.Seed()*31 + uint64(len(focus))*7 + uint64(focus[2]))
-		if focus == "c01" {
-			// history with a colliding key id, run FIRST in the process with two keys used nowhere else: a key object
-			// labelled with the owner's id but holding another key's material is used before the owner's real key
+		// histories that need a fresh process state run FIRST, with keys used nowhere else
+		switch focus {
+		case "c01":
 			for _, wrapper := range []string{"legacy", "dsse"} {
-				rr := r.Fork()
-				sc := baseScenario(rr, focus, 0)
-				sc.Wrapper, sc.Entry = wrapper, "plain"
-				sc.Defect, sc.Klass, sc.Seed = "keyid-collision-history", "c01/keyid-collision-first-use", lib.Seed()
-				sc.Owners = []string{"ed-c01-owner-" + wrapper}
-				sc.Verifiers = []string{"ed-c01-owner-" + wrapper}
-				sc.DefectArg = "ed-c01-outsider-" + wrapper
-				sc.Expect = "reject"
-				if len(sc.Insps) == 0 {
-					sc.Insps = []InspSpec{{Name: "insp0", Kind: "log"}}
-				}
-				sc.ExpectLog = nil
-				root := filepath.Join(work, "run-collision-"+wrapper)
-				w := materialise(sc, root, rr)
-				o := runImpl(sc, w)
-				cleanInspectionLinks(w)
-				impl := o.String()
-				oracle := impl
-				if v := oracleViolations(sc, o); v != "" {
-					oracle = "VIOLATES: " + v
-				}
-				wr.Put(lib.Case{Klass: sc.Klass, Input: lib.MustJSON(sc), Impl: impl, Oracle: oracle, CoqModel: coqModel(sc, w)})
-				os.RemoveAll(root)
+				wr.Put(collisionFirstUse(nil, r.Fork(), work, focus, wrapper, "fake-then-real"))
+			}
+			for _, kind := range []string{"insp-run", "readme", "pubkeys"} {
+				wr.Put(alterInMemory(nil, r.Fork(), work, kind))
+			}
+		case "c10":
+			for _, wrapper := range []string{"legacy", "dsse"} {
+				wr.Put(collisionFirstUse(nil, r.Fork(), work, focus, wrapper, "fake-then-real"))
+				wr.Put(collisionFirstUse(nil, r.Fork(), work, focus, wrapper, "real-then-fake"))
+			}
+		case "c08":
+			for _, wrapper := range []string{"legacy", "dsse"} {
+				wr.Put(forgedSubLinkFirstUse(nil, r.Fork(), work, wrapper))
 			}
 		}
 		for i := 0; i < n; i++ {
@@ -1677,6 +1860,11 @@ func main() {
 		sc := &c.Input
 		root := filepath.Join(os.Args[3], "replay")
 		os.Setenv("VERIF_SEED", strconv.FormatUint(sc.Seed, 10))
+		if c, ok := special(sc, os.Args[3]); ok {
+			fmt.Println("impl:   ", c.Impl)
+			fmt.Println("oracle: ", c.Oracle)
+			return
+		}
 		w := materialise(sc, root, lib.NewRng(1))
 		if len(sc.History) > 0 {
 			impl := runHistory(sc, w)
@@ -1690,6 +1878,185 @@ func main() {
 		fmt.Println("oracle: ", oracleViolations(sc, o))
 		fmt.Println("files kept under", root)
 	}
+}
+
+
+// collisionFirstUse: a layout signed by an outsider whose signature entry claims the owner's key id. A key object
+// labelled with the owner's id but holding the outsider's material accepts it (a key id is only a label); the owner's
+// real key must reject it - whatever was verified before in the same process. Keys are dedicated to the scenario so
+// that no earlier use of them exists. order: fake-then-real | real-then-fake
+func collisionFirstUse(sc *Scn, rr *lib.Rng, work, focus, wrapper, order string) lib.Case {
+	tag := focus + "-" + wrapper + "-" + order
+	if sc == nil {
+		sc = baseScenario(rr, focus, 0)
+		sc.Wrapper, sc.Entry = wrapper, "plain"
+		sc.Defect, sc.Klass, sc.Seed = "keyid-collision-history", focus+"/keyid-collision-"+order, lib.Seed()
+		sc.Owners = []string{"ed-owner-" + tag}
+		sc.Verifiers = []string{"ed-owner-" + tag}
+		sc.DefectArg = "ed-outsider-" + tag
+		sc.Params = nil
+		sc.Expect = "reject"
+		if len(sc.Insps) == 0 {
+			sc.Insps = []InspSpec{{Name: "insp0", Kind: "log"}}
+		}
+		sc.ExpectLog = nil
+		for _, in := range sc.Insps {
+			sc.ExpectLog = append(sc.ExpectLog, in.Name)
+		}
+	}
+	root := filepath.Join(work, "run-collision-"+tag)
+	noPrime = focus != "c01" // c01: the colliding key object is used by a bare VerifySignature inside materialise
+	w := materialise(sc, root, rr)
+	noPrime = false
+	real := w.verifierKeys
+	fakeKP := pk(sc.DefectArg)
+	fakeKP.Pub.KeyID = pk(sc.Owners[0]).Pub.KeyID
+	fake := map[string]intoto.Key{fakeKP.Pub.KeyID: fakeKP.Pub}
+	runWith := func(keys map[string]intoto.Key, extra []lib.KeyPair, expect string) (string, string, string) {
+		w.verifierKeys, w.extraKeys = keys, extra
+		scx := *sc
+		scx.Expect = expect
+		o := runImpl(&scx, w)
+		cleanInspectionLinks(w)
+		return o.String(), oracleViolations(&scx, o), coqModel(&scx, w)
+	}
+	var impls, models []string
+	viol := ""
+	seq := [][2]string{{"fake", "accept"}, {"real", "reject"}}
+	if order == "real-then-fake" {
+		seq = [][2]string{{"real", "reject"}, {"fake", "accept"}}
+	}
+	if focus == "c01" {
+		seq = [][2]string{{"real", "reject"}}
+	}
+	for _, st := range seq {
+		var i, v, m string
+		if st[0] == "fake" {
+			i, v, m = runWith(fake, []lib.KeyPair{fakeKP}, st[1])
+		} else {
+			i, v, m = runWith(real, nil, st[1])
+		}
+		impls = append(impls, i)
+		models = append(models, m)
+		if v != "" && viol == "" {
+			viol = "verification with the " + st[0] + " key object: " + v
+		}
+	}
+	impl := strings.Join(impls, ";")
+	oracle := impl
+	if viol != "" {
+		oracle = "VIOLATES: " + viol
+	}
+	os.RemoveAll(root)
+	return lib.Case{Klass: sc.Klass, Input: lib.MustJSON(sc), Impl: impl, Oracle: oracle, CoqModel: "(join [59] " + lib.CoqList(models, "str") + ")"}
+}
+
+var noPrime bool // keyid-collision-history: do not use the mislabelled key object inside materialise
+
+// alterInMemory (legacy wrapper): a layout object is verified (accepted), then its payload is altered in memory, then
+// the same object is verified again: the signature no longer covers the content and the second verification must
+// reject before any inspection runs.
+func alterInMemory(sc *Scn, rr *lib.Rng, work, kind string) lib.Case {
+	if sc == nil {
+		sc = baseScenario(rr, "c01", 0)
+		sc.Wrapper = "legacy"
+		sc.Defect, sc.Klass, sc.Seed = "alter-in-memory-after-verify", "c01/alter-in-memory-after-verify-"+kind, lib.Seed()
+		sc.DefectArg = kind
+		sc.Insps = []InspSpec{{Name: "insp0", Kind: "log"}}
+		sc.ExpectLog = []string{"insp0"}
+	}
+	root := filepath.Join(work, "run-alter-"+kind)
+	w := materialise(sc, root, rr)
+	lm, err := intoto.LoadMetadata(w.layoutPath)
+	must(err)
+	o1 := runImplOn(sc, w, lm)
+	cleanInspectionLinks(w)
+	m1 := coqModel(sc, w)
+	v1 := oracleViolations(sc, o1)
+	mb := lm.(*intoto.Metablock)
+	lay := mb.Signed.(intoto.Layout)
+	switch kind {
+	case "insp-run":
+		lay.Inspect = append([]intoto.Inspection{}, lay.Inspect...)
+		lay.Inspect[0].Run = []string{"sh", "-c", "echo EVIL >> " + logPath}
+	case "readme":
+		lay.Readme = "altered after the first verification"
+	case "pubkeys":
+		lay.Steps = append([]intoto.Step{}, lay.Steps...)
+		lay.Steps[0].PubKeys = append(append([]string{}, lay.Steps[0].PubKeys...), pk("ed2").Pub.KeyID)
+		lay.Steps[0].Threshold = 1
+	}
+	mb.Signed = lay
+	sc2 := *sc
+	sc2.Expect, sc2.ExpectLog = "reject", nil
+	o2 := runImplOn(&sc2, w, lm)
+	cleanInspectionLinks(w)
+	w.layoutMeta = lm
+	m2 := coqModel(&sc2, w)
+	v2 := oracleViolations(&sc2, o2)
+	impl := o1.String() + ";" + o2.String()
+	oracle := impl
+	if v1 != "" {
+		oracle = "VIOLATES: first verification: " + v1
+	} else if v2 != "" {
+		oracle = "VIOLATES: verification of the same object after its payload was altered in memory (" + kind + "): " + v2
+	}
+	os.RemoveAll(root)
+	return lib.Case{Klass: sc.Klass, Input: lib.MustJSON(sc), Impl: impl, Oracle: oracle, CoqModel: "(" + m1 + " ++ [59] ++ " + m2 + ")"}
+}
+
+// forgedSubLinkFirstUse: inside a sublayout one step is authorised for a dedicated victim key; its only link is forged
+// (signed by an outsider, labelled with the victim's key id). Earlier in the process a key object labelled with the
+// victim's id but holding the outsider's material checked that link (legitimate: a key id is a label). The
+// verification must still fail inside the sublayout.
+func forgedSubLinkFirstUse(sc *Scn, rr *lib.Rng, work, wrapper string) lib.Case {
+	if sc == nil {
+		sc = baseScenario(rr, "c08", 0)
+		sc.Wrapper, sc.Entry = wrapper, "plain"
+		sc.Defect, sc.Klass, sc.Seed = "sub-forged-link-first-use", "c08/sub-forged-link-first-use", lib.Seed()
+		victim, outsider := "ed-c08-victim-"+wrapper, "ed-c08-outsider-"+wrapper
+		st := &sc.Steps[rr.Intn(len(sc.Steps))]
+		sub := baseScenario(rr, "c08", 1)
+		sub.Wrapper = wrapper
+		sub.Defect = sc.Defect
+		sub.Insps = []InspSpec{{Name: "subinsp", Kind: "log"}}
+		j := rr.Intn(len(sub.Steps))
+		sub.Steps[j].Keys, sub.Steps[j].Signers, sub.Steps[j].Threshold = []string{victim}, []string{victim}, 1
+		st.SubSigner = st.Signers[0]
+		st.Threshold = len(st.Signers)
+		sub.Owners = []string{st.SubSigner}
+		st.Sub = sub
+		sc.DefectArg = outsider
+		sc.Expect = "reject"
+		sc.ForbidLog = []string{"subinsp"}
+	}
+	root := filepath.Join(work, "run-forged-"+wrapper)
+	w := materialise(sc, root, rr)
+	o := runImpl(sc, w)
+	cleanInspectionLinks(w)
+	impl := o.String()
+	oracle := impl
+	if v := oracleViolations(sc, o); v != "" {
+		oracle = "VIOLATES: " + v
+	}
+	os.RemoveAll(root)
+	return lib.Case{Klass: sc.Klass, Input: lib.MustJSON(sc), Impl: impl, Oracle: oracle, CoqModel: coqModel(sc, w)}
+}
+
+// special dispatches a stored scenario of one of the history classes (replay)
+func special(sc *Scn, work string) (lib.Case, bool) {
+	rr := lib.NewRng(1)
+	switch sc.Defect {
+	case "keyid-collision-history":
+		if i := strings.Index(sc.Klass, "/keyid-collision-"); i >= 0 {
+			return collisionFirstUse(sc, rr, work, sc.Focus, sc.Wrapper, sc.Klass[i+len("/keyid-collision-"):]), true
+		}
+	case "alter-in-memory-after-verify":
+		return alterInMemory(sc, rr, work, sc.DefectArg), true
+	case "sub-forged-link-first-use":
+		return forgedSubLinkFirstUse(sc, rr, work, sc.Wrapper), true
+	}
+	return lib.Case{}, false
 }
 
 // inspection links are dumped into the cwd by RunInspections; remove them between runs so that
